@@ -5,9 +5,12 @@
 #define EXC_KVStoreException 1
 uint32_t nondet_u32(void);
 typedef int64_t iora_tp;            /* system_clock::time_point = int64 nanoseconds since the epoch (libstdc++) */
-/* duration_cast ms -> ns.  In THIS unit the product wraps silently (what the hardware does): the no-overflow obligation of fromEpochMs
- * belongs to its own contract in unit kv_expiry (finding K4) and is not reported twice. */
-static inline iora_tp iora_tp_from_ms(int64_t ms) { return (int64_t)((uint64_t)ms * (uint64_t)1000000); }
+/* time_point(milliseconds(ms)) - the ms -> ns conversion.  In THIS unit it is an uninterpreted stub (argument and result recorded) so that the
+ * decode clauses say "the value handed to fromEpochMs is the record's exp64 field" and "the stored expiry is what fromEpochMs returned"
+ * without 64-bit multiplication in the formula (measured: > 300 s with it).  The arithmetic itself (exact value, overflow: finding K4)
+ * is the contract of fromEpochMs in unit kv_expiry. */
+bool G_fromms_called; int64_t G_fromms_arg; int64_t G_fromms_ret;
+static inline iora_tp iora_tp_from_ms(int64_t ms) { G_fromms_called = true; G_fromms_arg = ms; G_fromms_ret = nondet_i64(); return G_fromms_ret; }
 typedef struct { iora_tp expiry; uint64_t timerId; } ExpiryEntry;
 #define ExpiryEntry_DEFAULT ((ExpiryEntry){0, InvalidTimerId})
 typedef struct { int v; } iora_ec;
@@ -63,4 +66,11 @@ static inline void iora_ofs_open(iora_ofs *s, iora_gfile *f, int mode)
 #define IORA_STEP_BREAK 1
 #define IORA_STEP_CONTINUE 2
 int G_step;
-#define IORA_LOOP_KVStore_load_log_1
+/* the replay loop of load(): stream good, position inside the file, file not modified while looping; variant = bytes left */
+#define IORA_LOOP_KVStore_load_log_1 IORA_LC( \
+  __CPROVER_assigns(log, self->_kv, self->_expiry, G_ifs_boundary, G_crc_called, G_crc_p, G_crc_n, G_crc_ret, G_skey_last, G_skey_made, \
+                    G_fromms_called, G_fromms_arg, G_fromms_ret, iora_exc, self->_logPath->n) \
+  __CPROVER_loop_invariant(iora_exc == EXC_NONE && log.open && !log.fail && log.pos <= log.n) \
+  __CPROVER_loop_invariant(log.p == self->_logPath->p && log.n == self->_logPath->n && self->_logPath->exists) \
+  __CPROVER_loop_invariant(self->_logPath->n == __CPROVER_loop_entry(self->_logPath->n)) \
+  __CPROVER_decreases(log.n - log.pos))
